@@ -33,7 +33,7 @@ def gen(tier, seed, pid):
     if len(pats) < 10000:
         vlib.tool_error(f"only {len(pats)} layout patterns")
     rng = random.Random(seed * 97 + sum(map(ord, pid)))
-    per_elem = 40 if tier == "thorough" else 3
+    per_elem = 120 if tier == "thorough" else 3
     cases = []
     for e in ELEMENTS:
         for p in rng.sample(pats, per_elem):
